@@ -17,9 +17,9 @@ import (
 type PropConfig struct {
 	ID        string
 	Modules   []Module
-	Specs     []string // spec files under /verif/specs
-	Undecided []string // clauses of the property this check does not decide
-	Assume    []string // standing modelling assumptions
+	Specs     []string                                          // spec files under /verif/specs
+	Undecided []string                                          // clauses of the property this check does not decide
+	Assume    []string                                          // standing modelling assumptions
 	Gen       func(e *Engine, ld *Loaded) ([]FuncTarget, error) // contracts generated from the code at check time
 	Extra     func(ck *Checker, rep *Report, opts *Options) []*Goal
 	Post      func(ck *Checker, rep *Report, opts *Options)
@@ -265,22 +265,22 @@ func Finish(rep *Report, opts *Options) int {
 		"seed":        rep.Seed,
 		"level":       "proof",
 		"coverage": map[string]interface{}{
-			"obligations":                nProof,
-			"discharged":                 nDischarged,
-			"checker_cmd":                fmt.Sprintf("/verif/check %s --tier %s", id, rep.Tier),
-			"trusted_base":               rep.Trusted,
-			"functions_under_contract":   rep.Funcs,
-			"back_ends":                  backends,
-			"solver_queries":             rep.Queries,
-			"samples":                    samples,
-			"vacuity":                    map[string]interface{}{"cover_checks": nCover, "cover_ok": nCoverOK},
-			"known_finding_obligations":  knownHit,
-			"failed_obligations":         failed,
-			"bounded":                    rep.Bounded,
-			"modelling_notes":            rep.Notes,
-			"undecided_clauses":          rep.Undecided,
-			"arithmetic":                 "Go integers are fixed-width bit-vectors (wrap-around); symbolic*symbolic multiplication and division/remainder are uninterpreted functions shared by spec and implementation side",
-			"extra":                      rep.Extra,
+			"obligations":               nProof,
+			"discharged":                nDischarged,
+			"checker_cmd":               fmt.Sprintf("/verif/check %s --tier %s", id, rep.Tier),
+			"trusted_base":              rep.Trusted,
+			"functions_under_contract":  rep.Funcs,
+			"back_ends":                 backends,
+			"solver_queries":            rep.Queries,
+			"samples":                   samples,
+			"vacuity":                   map[string]interface{}{"cover_checks": nCover, "cover_ok": nCoverOK},
+			"known_finding_obligations": knownHit,
+			"failed_obligations":        failed,
+			"bounded":                   rep.Bounded,
+			"modelling_notes":           rep.Notes,
+			"undecided_clauses":         rep.Undecided,
+			"arithmetic":                "Go integers are fixed-width bit-vectors (wrap-around); symbolic*symbolic multiplication and division/remainder are uninterpreted functions shared by spec and implementation side",
+			"extra":                     rep.Extra,
 		},
 		"assumptions": append(append([]string{}, rep.Assumptions...), rep.Trusted...),
 		"wall_s":      round3(rep.Wall),
